@@ -937,6 +937,9 @@ func c05ErrorsChecked(c *Ctx, m *Module, fns []*ssa.Function) {
 			if c05NeverFails[cn] {
 				continue // library contract: the error result is always nil
 			}
+			if cn == "(io.ReadCloser).Close" && strings.HasSuffix(describe(cs.Common().Value), ".Body") {
+				continue // closing something that is only read (a response body): no data can be lost
+			}
 			dropped++
 			reason, tabled := c05IgnoreTable[fname(f)+"|"+cn]
 			if !tabled {
